@@ -5,7 +5,7 @@
 # 3. applies it to /repo, runs the given checks (default: the property's own) in quick tier, reverts
 set -u
 export GOFLAGS=-mod=mod GOPROXY=off GOSUMDB=off GOTOOLCHAIN=local
-src="$1"; name="$2"; shift 2
+src="$(readlink -f "$1")"; name="$2"; shift 2
 prop=$(python3 -c "import json,sys;print(json.load(open('$src/meta.json'))['property'])")
 demodir=$(python3 -c "import json,sys;print(json.load(open('$src/meta.json'))['demo_pkg_dir'])")
 democmd=$(python3 -c "import json,sys;print(json.load(open('$src/meta.json'))['demo_cmd'])")
